@@ -40,4 +40,13 @@ func genFixes(repo string) {
 	sb := sq("datatype/labelmap", "Data", "streamRawBlock")
 	emit("rawBlockNilIsBackground", "labelmap's single-block raw read answers a never written block with label 0 instead of dereferencing a nil block (C20)",
 		strings.Contains(sb, "ifblock==nil{") && strings.Contains(sb, "labels.MakeSolidBlock(0,blockSize)"), sb != "")
+	ai := sq("dvid", "Extents", "AdjustIndices")
+	emit("extentsIndexChangeKeepsMin", "Extents.AdjustIndices reports a change when either the minimum or the maximum block index moved (C03: the instance is saved, so the extents survive a restart)",
+		strings.Contains(ai, "ext.MinIndex,minChanged=ext.MinIndex.Min(indexBeg)") && strings.Contains(ai, "returnminChanged||maxChanged") && !strings.Contains(ai, "ext.MaxIndex,minChanged"), ai != "")
+	lm := sq("datastore", "repoManager", "loadMetadata")
+	emit("startupRepairsRepoCounter", "loadMetadata raises the repo id counter above every stored repo id, as it does for version ids (C12: a lagging stored counter hands out no id twice)",
+		strings.Contains(lm, "forid:=rangem.repoToUUID{ifid>=m.repoID{") && strings.Contains(lm, "m.repoID=id+1") && strings.Contains(lm, "ifv>=m.versionID{"), lm != "")
+	ni := sq("datastore", "repoManager", "newInstanceID")
+	emit("newInstanceIdSkipsLiveIds", "newInstanceID draws again while the drawn id belongs to a live instance, whichever generator is configured (C06/C12: a lagging stored counter never makes two instances share storage)",
+		strings.Contains(ni, "_,found:=m.iids[curid]if!found{invalidID=false}"), ni != "")
 }
